@@ -429,19 +429,19 @@ def run_gridseq(sd):
     frozen = arg_state([("r1", a1), ("r2", a2)])
     plain = [(n, o, type(o), list(o)) for n, o in (("r1", a1), ("r2", a2)) if not isinstance(o, np.ndarray)]
     out = []
+    mutated = False
     for i, c in enumerate(sd["calls"]):
         rd = dict(kind="grid", stream="dyadic", r1=sd["r1"], r2=sd["r2"], pad=c["pad"], s=c["s"], dtype=c["dtype"])
         term, viol, info = run_grid(rd, (a1, a2))
         how = (f"corners passed as {sd['k1']}/{sd['k2']}" + (" (one object for both corners)" if sd["same"] else "")
                + (f", call {i + 1} with the same corner objects" if i else ""))
         viols = [(viol[0] + (":same-object-as-both-corners" if sd["same"] else ":corner-objects-reused" if i else ":corner-kind"), how + ": " + viol[1])] if viol else []
-        bad = args_changed(frozen) + [n for n, o, t, c0 in plain if type(o) is not t or list(o) != c0]
+        bad = [] if mutated else args_changed(frozen) + [n for n, o, t, c0 in plain if type(o) is not t or list(o) != c0]
         if bad:
+            mutated = True             # reported once; the later calls show what it does to the next grid
             viols.append(("argument-mutated:" + "+".join(bad), f"{how}: rectangular_grid(padding={c['pad']}, spacing={c['s']}, dtype={c['dtype']}) changed "
                           f"the caller's corner argument(s) {bad}: passed {sd['r1']} / {sd['r2']}, now {[float(v) for v in a1]} / {[float(v) for v in a2]}"))
         out.append((term, viols, info))
-        if bad:
-            break                      # later calls would only repeat the same finding with shifted corners
     return out
 
 
@@ -583,7 +583,7 @@ def one_desc(rng, kind, generic, cap=400, shape=None, big=None):
     return rd
 
 
-BIG_SHAPES = [(1, 1), (1, 40), (2, 33), (3, 5), (7, 17), (5, 12), (16, 8), (40, 3), (3, 70), (12, 11), (70, 2)]
+BIG_SHAPES = [(1, 1), (1, 40), (2, 33), (3, 5), (7, 17), (5, 12), (16, 8), (40, 3), (3, 70), (12, 11), (70, 2), (1, 130)]
 BIG_SIZES = [1000, 1024, 2049, 4096, 5000, 8191, 8192, 12289, 16384, 20011, 32768, 32769, 50021, 65536, 65537, 70001]
 
 
@@ -600,7 +600,12 @@ def big_inputs(ctx):
                 shape, G = (7, 17), rng.choice([12289, 20011, 32769, 50021, 70001])
             elif i % 4 == 1:                       # a small ensemble just across 2^16 elements
                 shape, G = rng.choice([(3, 5), (2, 33), (5, 12), (1, 40)]), rng.choice([5000, 8191, 2049, 12289])
-            mode = rng.choice(["random", "random", "shuffled", "lattice"])
+            elif i % 4 == 2:                       # many conformers (not a multiple of 16 / 32 / 64)
+                shape, G = rng.choice([(40, 3), (70, 2), (33, 4), (65, 2), (130, 1)]), rng.choice([1000, 2049, 4096, 5000])
+            elif i % 8 == 3:                       # many atoms
+                shape, G = rng.choice([(3, 70), (1, 130), (2, 65), (1, 257)]), rng.choice([1000, 2049, 4096, 5000])
+            # 'lattice' leaves the tail of the array on the empty far face of the box: the two guaranteed threshold-crossing cases avoid it
+            mode = rng.choice(["random", "random", "shuffled", "lattice"] if i % 4 > 1 else ["random", "shuffled"])
             out.append(one_desc(rng, kind, False, shape=shape, big=dict(G=G, mode=mode, seed=rng.randint(0, 2 ** 31 - 1))))
     for kind in (("aso", "aeif") if not ctx.thorough else DESC_KINDS):      # > 2^24 distance-array elements
         out.append(one_desc(rng, kind, False, shape=(7, 17), big=dict(G=rng.choice([150001, 141312, 163840]), mode="random", seed=rng.randint(0, 2 ** 31 - 1))))
@@ -632,11 +637,13 @@ def seq_inputs(ctx):
     out = []
     reps = 2 if not ctx.thorough else 16
     for kind in DESC_KINDS:
-        for r in range(reps + max(1, reps // 2)):
+        more = 1 if kind in ("prune", "nearest") and not ctx.thorough else 0      # the KD-tree users: one more of each (a stale
+        n_edit = reps + more                                                       # tree shows only when the atoms moved far enough)
+        for r in range(n_edit + max(1, reps // 2) + more):
             base = one_desc(rng, kind, generic=False, cap=220)
             C, N = len(base["coords"]), len(base["coords"][0])
             steps = []
-            if r < reps:                                   # in-place edits of one object
+            if r < n_edit:                                 # in-place edits of one object
                 for _ in range(3):
                     op = rng.choice(["translate", "translate", "scale", "rot90", "assign", "assign", "charges", "weights"])
                     if op == "translate":
@@ -909,9 +916,11 @@ def ref_fields(co, g64, radii, want_near):
 def judge_nearest(rd, what, obs, cosel, g64):
     np = np_()
     G = g64.shape[0]
-    rows = obs.reshape((-1, G)) if obs.ndim == 1 else obs
-    if rows.shape != (cosel.shape[0], G) or (rd["target"] != "ens" and obs.ndim != 1) or obs.dtype.kind not in "iu":
-        return ("nearest:wrong-shape", f"{what}: result shape {obs.shape} dtype {obs.dtype}")
+    if obs.shape != ((cosel.shape[0], G) if rd["target"] == "ens" else (G,)):
+        return ("nearest:wrong-shape", f"{what}: result shape {obs.shape}")
+    rows = obs.reshape((-1, G)).astype(np.int64)
+    if not (rows == obs.reshape((-1, G))).all():
+        return ("nearest:wrong-index", f"{what}: the result holds non-integral values")
     b = float(NEAR_BAND) * 4
     N = cosel.shape[1]
     for sl in blocks_of(G, cosel.shape[0] * N):
@@ -934,7 +943,7 @@ def judge_prune(rd, what, kept, cosel, g64):
     np = np_()
     G = g64.shape[0]
     kl = [int(i) for i in kept.tolist()] if kept.ndim == 1 else None
-    if kl is None or kept.dtype.kind not in "iu" or any(i < 0 or i >= G for i in kl) or any(b <= a for a, b in zip(kl, kl[1:])):
+    if kl is None or kl != kept.tolist() or any(i < 0 or i >= G for i in kl) or any(b <= a for a, b in zip(kl, kl[1:])):
         return ("prune:bad-indices", f"{what}: result is not an ascending list of grid indices: {kept.tolist()[:20]}")
     atoms = cosel.reshape((1, -1, 3))
     mask = np.zeros(G, dtype=bool)
@@ -1049,18 +1058,21 @@ def run_desc(ml, rd, objs=None):
             v = judge(obs)
             if v:
                 viols.append((v[0] + (":repeated-call" if i else ""), (f"call {i + 1} with the same argument objects: " if i else "") + v[1]))
-            bad = args_changed(frozen)
-            if bad:
+            bad = args_changed(frozen) if not any(":argument-mutated:" in x[0] for x in viols) else []
+            if bad:                    # reported once; a further call shows what it does to the next result
                 viols.append((f"{kind}:argument-mutated:" + "+".join(bad), f"{what}: the call changed the caller's array argument(s) {bad}"))
-            if v or bad:
+            if v:
                 break
         # ---- the case term: the whole grid, or -- large grid -- the sampled positions (C19_sample)
         if G <= 400:
             S = None
             sub = lambda a: a
         else:
-            inter = (np.nonzero((obs.reshape((-1, G)) >= 0).any(axis=0))[0] if kind == "nearest" else obs if kind == "prune" else np.nonzero(obs)[0]) \
-                if obs is not None and obs.ndim >= 1 and obs.size and (kind == "prune" or obs.shape[-1] == G) else []
+            try:
+                inter = (np.nonzero((obs.reshape((-1, G)) >= 0).any(axis=0))[0] if kind == "nearest" else
+                         [i for i in obs.tolist() if 0 <= i < G] if kind == "prune" else np.nonzero(obs)[0])
+            except Exception:  # noqa
+                inter = []
             S = sample_idx(G, C, N, inter, rd["big"]["seed"])
             info["sampled"] = len(S)
             sub = lambda a: a[..., S]
@@ -1134,6 +1146,15 @@ def run(ctx, rep):
                         "descriptors: grid points with |d^2 - r^2| <= 2e-3 for some atom (float32 rounding band around a sphere surface) are left out; nearest/prune: "
                         "relative band 1e-9 around the cut-off and between tied atoms; values within 1e-9",
                         "scipy KDTree is external: its answers are checked against the specification inside Coq, not modelled",
+                        "large grids (> 400 points for the descriptors, > 1500 for rectangular_grid; up to 1.5e5 points, distance arrays up to 2^24 elements): "
+                        "ALL points are judged by the float64 numpy oracle (evaluated in the harness's own ceil-count blocks); inside Coq only a sample of "
+                        "<= ~45 positions per case is compared (both ends, the points around the end of the last full block for every candidate block "
+                        "length 2^8..2^24 points / distance elements, random and non-zero points) because a literal of the whole grid is too large -- "
+                        "C19_sample / C19_blockwise / C19_grid_at state why the point-wise sample is meaningful",
+                        "argument kinds: corners as list / tuple / float32 / float64 / int64 ndarray / row view / strided view / read-only array, one object as both "
+                        "corners, the same corner objects in 3 consecutive calls; grid as returned / other float width / Fortran order / strided view / read-only, "
+                        "radii, values and nearest_atom_idx in other widths / layouts / read-only; 1-2 calls with the same argument objects; after every call "
+                        "every array argument (and the ensemble's coords / weights / charges) must be bit-for-bit unchanged",
                         "kernels: equality on dyadic inputs (|k|<2^10, 4 fractional bits), relative 2^-20 (float32) / 2^-48 (float64) on generic floats",
                         "sqrt is modelled by its specification: d >= 0 and d*d within s*tol of s (C19_sqrt_close)"]
     import time
@@ -1158,25 +1179,46 @@ def run(ctx, rep):
     # ---- grid and descriptors
     import molli as ml
     gterms, gowners, gflagged = [], [], set()
-    for rd in grid_inputs(ctx) + desc_inputs(ctx) + seq_inputs(ctx):
+    for rd in grid_inputs(ctx) + gridseq_inputs(ctx) + desc_inputs(ctx) + seq_inputs(ctx) + big_inputs(ctx):
         if rd["kind"] == "seq":
             results = [(f"seq:{rd['desc']}:" + ("call-0" if i == 0 else ("fresh" if rd["steps"][i - 1][0] == "fresh" else "edited")), dict(rd, call=i), r)
                        for i, r in enumerate(run_seq(ml, rd))]
+        elif rd["kind"] == "gridseq":
+            results = [(f"gridargs:{rd['k1']}/{rd['k2']}" if i == 0 else "gridargs:call-2+:same-corner-objects", dict(rd, call=i), r)
+                       for i, r in enumerate(run_gridseq(rd))]
+            rep.count("gridargs:one-object-as-both-corners" if rd["same"] else "gridargs:two-objects")
         else:
-            results = [(f"{rd['kind']}:{rd['stream']}" + (":" + rd["target"] if "target" in rd else ""), rd,
+            results = [(f"{rd['kind']}:{rd['stream']}" + (":" + rd["target"] if "target" in rd else "") + (":large" if rd.get("big") else ""), rd,
                         run_grid(rd) if rd["kind"] == "grid" else run_desc(ml, rd))]
+            if rd["kind"] != "grid":
+                rep.count("args:grid-held-as:" + rd.get("gk", "asis"))
+                rep.count("args:calls-with-the-same-objects:" + str(rd.get("reps", 1)))
+                for k in ("rk", "vk", "ik"):
+                    if rd.get(k, "asis") != "asis":
+                        rep.count({"rk": "args:radii:", "vk": "args:values:", "ik": "args:nearest_atom_idx:"}[k] + rd[k])
+            if rd.get("big") and rd["kind"] != "grid":
+                C, N, G = len(rd["coords"]), len(rd["coords"][0]), results[0][2][2].get("G", 0)
+                rep.count(f"large:{rd['kind']}")
+                rep.count(f"large:grid-mode:{rd['big']['mode']}")
+                rep.count(f"large:distance-array-elements:2^{max(1, C * N * G).bit_length() - 1}")
+                rep.count("large:grid-size:" + ("power-of-two" if G & (G - 1) == 0 else "multiple-of-1024" if G % 1024 == 0 else
+                                                "power-of-two+-1" if (G + 1) & G == 0 or (G - 1) & (G - 2) == 0 else "other"))
+                rep.count(f"large:ensemble:{'>=16' if C >= 16 else '<16'}-conformers-x-{'>=33' if N >= 33 else '>10' if N > 10 else '<=10'}-atoms")
+                rep.extra["large_cases_sampled_points"] = rep.extra.get("large_cases_sampled_points", 0) + results[0][2][2].get("sampled", 0)
+            elif rd.get("big"):
+                rep.count("large:grid")
         for tag, owner, (term, viol, info) in results:
             rep.count(tag)
             if info.get("id_reused"):
                 rep.count("seq:fresh:landed-on-the-id-of-a-dead-object")
-            if viol:
+            for v in vlist(viol):
                 gflagged.add(len(gowners))
-                rep.violate("C19:" + (("grid:" + viol[0]) if rd["kind"] == "grid" else viol[0]), viol[1], owner)
+                rep.violate("C19:" + (("grid:" + v[0]) if rd["kind"] in ("grid", "gridseq") else v[0]), v[1], owner)
             if term is None:
                 rep.case(key=None)
                 rep.count("not-compared")
                 continue
-            rep.case(key=json.dumps(owner, sort_keys=True), sample=(owner if len(gterms) % 40 == 0 and rd["kind"] != "seq" else None))
+            rep.case(key=json.dumps(owner, sort_keys=True), sample=(owner if len(gterms) % 40 == 0 and rd["kind"] not in ("seq", "gridseq") and not rd.get("big") else None))
             gterms.append(term)
             gowners.append(owner)
     rep.extra["t_grid_driven"] = round(time.time() - t0, 1)
@@ -1247,14 +1289,22 @@ def widen(ctx, rep, kinds):
         if "seq" in rest:
             for sd in seq_inputs(sub)[:120]:
                 for i, (_, viol, _) in enumerate(run_seq(ml, sd)):
-                    if viol:
-                        rep.violate("C19:" + viol[0], viol[1], dict(sd, call=i))
+                    for v in vlist(viol):
+                        rep.violate("C19:" + v[0], v[1], dict(sd, call=i))
                         return True
+        if "gridseq" in rest:
+            for sd in gridseq_inputs(sub)[:200]:
+                for i, (_, viol, _) in enumerate(run_gridseq(sd)):
+                    for v in vlist(viol):
+                        rep.violate("C19:grid:" + v[0], v[1], dict(sd, call=i))
+                        return True
+        pool += [rd for rd in big_inputs(sub) if rd["kind"] in rest][:60]
         for rd in pool:
             _, viol, _ = run_grid(rd) if rd["kind"] == "grid" else run_desc(ml, rd)
-            if viol:
+            for v in vlist(viol):
                 hit = True
-                rep.violate("C19:" + (("grid:" + viol[0]) if rd["kind"] == "grid" else viol[0]), viol[1], rd)
+                rep.violate("C19:" + (("grid:" + v[0]) if rd["kind"] == "grid" else v[0]), v[1], rd)
+            if hit:
                 break
     return hit
 
@@ -1267,14 +1317,16 @@ def replay(ctx, data):
         return [vlib.Violation(v[0], v[1], data)] if v else []
     if data.get("kind") == "grid":
         _, viol, _ = run_grid(data)
-        return [vlib.Violation("C19:grid:" + viol[0], viol[1], data)] if viol else []
+        return [vlib.Violation("C19:grid:" + v[0], v[1], data) for v in vlist(viol)]
+    if data.get("kind") == "gridseq":
+        return [vlib.Violation("C19:grid:" + v[0], v[1], dict(data, call=i)) for i, (_, viol, _) in enumerate(run_gridseq(data)) for v in vlist(viol)]
     if data.get("kind") == "seq":
         import molli as ml
-        return [vlib.Violation("C19:" + viol[0], viol[1], dict(data, call=i)) for i, (_, viol, _) in enumerate(run_seq(ml, data)) if viol]
+        return [vlib.Violation("C19:" + v[0], v[1], dict(data, call=i)) for i, (_, viol, _) in enumerate(run_seq(ml, data)) for v in vlist(viol)]
     if data.get("kind") in ("nearest", "prune", "aso", "aeif", "aif"):
         import molli as ml
         _, viol, _ = run_desc(ml, data)
-        return [vlib.Violation("C19:" + viol[0], viol[1], data)] if viol else []
+        return [vlib.Violation("C19:" + v[0], v[1], data) for v in vlist(viol)]
     if data.get("kind") == "kernel":
         inp = dict(name=data["name"], dt=data["dt"], exact=data["exact"], shape1=data["shape1"], a=data["a"], b=data["b"])
         if data["via"] == "shim":
